@@ -45,8 +45,10 @@ def stOf (z : Rn) : UInt8 := UInt8.ofNat z.prevSmoothType
 /-- the bookkeeping invariant of the model: the smooth type is 0, 1 or 2 -/
 def SmoothOK (z : Rn) : Prop := z.prevSmoothType ≤ 2
 
+tolerant
 theorem two_f32 : (two : F32) = ⟨0x40000000⟩ := by decide
 
+tolerant
 private theorem st_ne (z : Rn) (h : SmoothOK z) (k : Nat) (hk : k ≤ 2) :
     (stOf z = UInt8.ofNat k) ↔ (z.prevSmoothType = k) := by
   unfold stOf SmoothOK at *
@@ -68,12 +70,14 @@ def out4 (c : Call F32) : RastObj × UInt8 × F32 × F32 :=
   (objOf (z.step arc pinf c).1 (l ++ (z.step arc pinf c).2), stOf (z.step arc pinf c).1,
    (z.step arc pinf c).1.prevSmoothX, (z.step arc pinf c).1.prevSmoothY)
 
+tolerant
 /-- render.go relVec2 -/
 theorem relVec2_code_tie (x y : F32) :
     render_Renderer_relVec2 rastOps (objOf z l) z.scaleX z.scaleY x y = (z.relVecX x, z.relVecY y, objOf z l) := by
   simp [render_Renderer_relVec2, rastOps, objOf, Renderer.relVecX, Renderer.relVecY, render_Renderer_relX,
     render_Renderer_relY, Renderer.relX, Renderer.relY]
 
+tolerant
 /-- render.go implicitSmoothPoint -/
 theorem implicitSmoothPoint_code_tie (h : SmoothOK z) (k : Nat) (hk : k ≤ 2) :
     render_Renderer_implicitSmoothPoint rastOps (objOf z l) (stOf z) z.prevSmoothX z.prevSmoothY (UInt8.ofNat k)
@@ -86,6 +90,7 @@ theorem implicitSmoothPoint_code_tie (h : SmoothOK z) (k : Nat) (hk : k ≤ 2) :
   · have : ¬ stOf z = UInt8.ofNat k := fun c => hk' (e.mp c)
     simp [this, hk', rastOps, objOf]
 
+tolerant
 /-- render.go AbsLineTo -/
 theorem absLineTo_code_tie (x y : F32) :
     render_Renderer_AbsLineTo rastOps (objOf z l) z.scaleX z.biasX z.scaleY z.biasY z.disabled (stOf z) x y
@@ -95,6 +100,7 @@ theorem absLineTo_code_tie (x y : F32) :
     simp [Renderer.step, hd, objOf, stOf, rastOps, Renderer.lineTo, render_Renderer_absVec2, render_Renderer_absX,
       render_Renderer_absY, Renderer.absX, Renderer.absY]
 
+tolerant
 /-- render.go RelLineTo -/
 theorem relLineTo_code_tie (x y : F32) :
     render_Renderer_RelLineTo rastOps (objOf z l) z.scaleX z.scaleY z.disabled (stOf z) x y
@@ -103,6 +109,7 @@ theorem relLineTo_code_tie (x y : F32) :
   cases hd : z.disabled <;> simp only [hd, Bool.false_eq_true, ↓reduceIte, relVec2_code_tie] <;>
     simp [Renderer.step, hd, Renderer.lineTo, rastOps, objOf, stOf, Renderer.relVecX, Renderer.relVecY]
 
+tolerant
 /-- render.go AbsHLineTo -/
 theorem absHLineTo_code_tie (x : F32) :
     render_Renderer_AbsHLineTo rastOps (objOf z l) z.scaleX z.biasX z.disabled (stOf z) x
@@ -111,6 +118,7 @@ theorem absHLineTo_code_tie (x : F32) :
   cases hd : z.disabled <;> simp only [hd, Bool.false_eq_true, ↓reduceIte] <;>
     simp [Renderer.step, hd, objOf, stOf, rastOps, Renderer.lineTo, render_Renderer_absX, Renderer.absX]
 
+tolerant
 /-- render.go RelHLineTo -/
 theorem relHLineTo_code_tie (x : F32) :
     render_Renderer_RelHLineTo rastOps (objOf z l) z.scaleX z.disabled (stOf z) x
@@ -119,6 +127,7 @@ theorem relHLineTo_code_tie (x : F32) :
   cases hd : z.disabled <;> simp only [hd, Bool.false_eq_true, ↓reduceIte] <;>
     simp [Renderer.step, hd, objOf, stOf, rastOps, Renderer.lineTo, render_Renderer_relX, Renderer.relX]
 
+tolerant
 /-- render.go AbsVLineTo -/
 theorem absVLineTo_code_tie (y : F32) :
     render_Renderer_AbsVLineTo rastOps (objOf z l) z.scaleY z.biasY z.disabled (stOf z) y
@@ -127,6 +136,7 @@ theorem absVLineTo_code_tie (y : F32) :
   cases hd : z.disabled <;> simp only [hd, Bool.false_eq_true, ↓reduceIte] <;>
     simp [Renderer.step, hd, objOf, stOf, rastOps, Renderer.lineTo, render_Renderer_absY, Renderer.absY]
 
+tolerant
 /-- render.go RelVLineTo -/
 theorem relVLineTo_code_tie (y : F32) :
     render_Renderer_RelVLineTo rastOps (objOf z l) z.scaleY z.disabled (stOf z) y
@@ -135,6 +145,7 @@ theorem relVLineTo_code_tie (y : F32) :
   cases hd : z.disabled <;> simp only [hd, Bool.false_eq_true, ↓reduceIte] <;>
     simp [Renderer.step, hd, objOf, stOf, rastOps, Renderer.lineTo, render_Renderer_relY, Renderer.relY]
 
+tolerant
 /-- render.go ClosePathAbsMoveTo -/
 theorem closePathAbsMoveTo_code_tie (x y : F32) :
     render_Renderer_ClosePathAbsMoveTo rastOps (objOf z l) z.scaleX z.biasX z.scaleY z.biasY z.disabled (stOf z) x y
@@ -144,6 +155,7 @@ theorem closePathAbsMoveTo_code_tie (x y : F32) :
     simp [Renderer.step, hd, objOf, stOf, rastOps, Renderer.closePath, Renderer.moveTo, render_Renderer_absVec2,
       render_Renderer_absX, render_Renderer_absY, Renderer.absX, Renderer.absY]
 
+tolerant
 /-- render.go ClosePathRelMoveTo: the relative move is measured from the pen AFTER closing, i.e. the sub-path start -/
 theorem closePathRelMoveTo_code_tie (x y : F32) :
     render_Renderer_ClosePathRelMoveTo rastOps (objOf z l) z.scaleX z.scaleY z.disabled (stOf z) x y
@@ -153,6 +165,7 @@ theorem closePathRelMoveTo_code_tie (x y : F32) :
     simp [Renderer.step, hd, objOf, stOf, rastOps, Renderer.closePath, Renderer.moveTo, render_Renderer_relVec2,
       render_Renderer_relX, render_Renderer_relY, Renderer.relVecX, Renderer.relVecY, Renderer.relX, Renderer.relY]
 
+tolerant
 /-- render.go AbsQuadTo -/
 theorem absQuadTo_code_tie (x1 y1 x y : F32) :
     render_Renderer_AbsQuadTo rastOps (objOf z l) z.scaleX z.biasX z.scaleY z.biasY z.disabled (stOf z)
@@ -163,6 +176,7 @@ theorem absQuadTo_code_tie (x1 y1 x y : F32) :
     simp [Renderer.step, hd, objOf, stOf, rastOps, Renderer.quadTo, Renderer.setSmooth, render_Renderer_absVec2,
       render_Renderer_absX, render_Renderer_absY, Renderer.absX, Renderer.absY]
 
+tolerant
 /-- render.go RelQuadTo -/
 theorem relQuadTo_code_tie (x1 y1 x y : F32) :
     render_Renderer_RelQuadTo rastOps (objOf z l) z.scaleX z.scaleY z.disabled (stOf z)
@@ -173,6 +187,7 @@ theorem relQuadTo_code_tie (x1 y1 x y : F32) :
     simp [Renderer.step, hd, objOf, stOf, rastOps, Renderer.quadTo, Renderer.setSmooth,
       Renderer.relVecX, Renderer.relVecY]
 
+tolerant
 /-- render.go AbsCubeTo -/
 theorem absCubeTo_code_tie (x1 y1 x2 y2 x y : F32) :
     render_Renderer_AbsCubeTo rastOps (objOf z l) z.scaleX z.biasX z.scaleY z.biasY z.disabled (stOf z)
@@ -183,6 +198,7 @@ theorem absCubeTo_code_tie (x1 y1 x2 y2 x y : F32) :
     simp [Renderer.step, hd, objOf, stOf, rastOps, Renderer.cubeTo, Renderer.setSmooth, render_Renderer_absVec2,
       render_Renderer_absX, render_Renderer_absY, Renderer.absX, Renderer.absY]
 
+tolerant
 /-- render.go RelCubeTo -/
 theorem relCubeTo_code_tie (x1 y1 x2 y2 x y : F32) :
     render_Renderer_RelCubeTo rastOps (objOf z l) z.scaleX z.scaleY z.disabled (stOf z)
@@ -193,6 +209,7 @@ theorem relCubeTo_code_tie (x1 y1 x2 y2 x y : F32) :
     simp [Renderer.step, hd, objOf, stOf, rastOps, Renderer.cubeTo, Renderer.setSmooth,
       Renderer.relVecX, Renderer.relVecY]
 
+tolerant
 /-- render.go AbsSmoothQuadTo -/
 theorem absSmoothQuadTo_code_tie (h : SmoothOK z) (x y : F32) :
     render_Renderer_AbsSmoothQuadTo rastOps (objOf z l) z.scaleX z.biasX z.scaleY z.biasY z.disabled (stOf z)
@@ -205,6 +222,7 @@ theorem absSmoothQuadTo_code_tie (h : SmoothOK z) (x y : F32) :
     simp [Renderer.step, hd, objOf, stOf, rastOps, Renderer.quadTo, Renderer.setSmooth, render_Renderer_absVec2,
       render_Renderer_absX, render_Renderer_absY, Renderer.absX, Renderer.absY]
 
+tolerant
 /-- render.go RelSmoothQuadTo -/
 theorem relSmoothQuadTo_code_tie (h : SmoothOK z) (x y : F32) :
     render_Renderer_RelSmoothQuadTo rastOps (objOf z l) z.scaleX z.scaleY z.disabled (stOf z)
@@ -217,6 +235,7 @@ theorem relSmoothQuadTo_code_tie (h : SmoothOK z) (x y : F32) :
     simp [Renderer.step, hd, objOf, stOf, rastOps, Renderer.quadTo, Renderer.setSmooth,
       Renderer.relVecX, Renderer.relVecY]
 
+tolerant
 /-- render.go AbsSmoothCubeTo -/
 theorem absSmoothCubeTo_code_tie (h : SmoothOK z) (x2 y2 x y : F32) :
     render_Renderer_AbsSmoothCubeTo rastOps (objOf z l) z.scaleX z.biasX z.scaleY z.biasY z.disabled (stOf z)
@@ -229,6 +248,7 @@ theorem absSmoothCubeTo_code_tie (h : SmoothOK z) (x2 y2 x y : F32) :
     simp [Renderer.step, hd, objOf, stOf, rastOps, Renderer.cubeTo, Renderer.setSmooth, render_Renderer_absVec2,
       render_Renderer_absX, render_Renderer_absY, Renderer.absX, Renderer.absY]
 
+tolerant
 /-- render.go RelSmoothCubeTo -/
 theorem relSmoothCubeTo_code_tie (h : SmoothOK z) (x2 y2 x y : F32) :
     render_Renderer_RelSmoothCubeTo rastOps (objOf z l) z.scaleX z.scaleY z.disabled (stOf z)
@@ -245,9 +265,11 @@ end
 
 set_option linter.constructorNameAsVariable false
 
+tolerant
 /-- the hypothesis of the smooth-curve ties holds of the zero value … -/
 theorem smoothOK_zero : SmoothOK (Renderer.zero : Rn) := by simp [SmoothOK, Renderer.zero]
 
+tolerant
 /-- every call other than an arc keeps the smooth type in {0,1,2} -/
 theorem smoothOK_step (arc : ArcFn F32 F64) (pinf : F32) (z : Rn) (h : SmoothOK z) (c : Call F32)
     (hc : ∀ rel rx ry rot la sw x y, c ≠ .arc rel rx ry rot la sw x y) : SmoothOK (z.step arc pinf c).1 := by
